@@ -201,7 +201,9 @@ class FilReader(Filterbank):
         self._file.seek(start * self.samp_stride)
         ends_at_eof = start + nsamps == self.header.nsamples
         nreads, lastread = divmod(nsamps, (gulp - skipback))
-        if lastread < skipback:
+        # Every full read must end inside the requested range, i.e. leave at
+        # least ``skipback`` samples for the last read
+        while lastread < skipback:
             nreads -= 1
             lastread = nsamps - (nreads * (gulp - skipback))
         blocks = [
@@ -333,7 +335,9 @@ class PFITSReader(Filterbank):
             msg = f"readsamps ({gulp}) must be > skipback ({skipback})"
             raise ValueError(msg)
         nreads, lastread = divmod(nsamps, (gulp - skipback))
-        if lastread < skipback:
+        # Every full read must end inside the requested range, i.e. leave at
+        # least ``skipback`` samples for the last read
+        while lastread < skipback:
             nreads -= 1
             lastread = nsamps - (nreads * (gulp - skipback))
         blocks = [(ii, gulp, -skipback) for ii in range(nreads)]
